@@ -242,16 +242,36 @@ MUTATORS = [
 ]
 
 
-SAME_SIZE_MUTATORS = [m_retarget, m_retarget, m_backward_branch, m_shared_case_body, m_cross_routine_jump]
+def m_jump_into_loop(routines, rng):
+    """Retarget a forward jump that lies before a loop into the body of that loop (a second entry: the loop can no
+    longer be written as a block, although the graph keeps its size)."""
+    cands = []
+    for r in routines:
+        pos = {n["id"]: i for i, n in enumerate(r["ops"])}
+        for j, n in enumerate(r["ops"]):
+            if n["tgt"] in pos and pos[n["tgt"]] < j:  # back edge i <- j
+                i = pos[n["tgt"]]
+                for k in range(0, i):
+                    m = r["ops"][k]
+                    if m["tgt"] in pos and pos[m["tgt"]] > k and j - i >= 2:
+                        cands.append((r, k, i, j))
+    if not cands:
+        return "noop"
+    r, k, i, j = rng.choice(cands)
+    r["ops"][k]["tgt"] = r["ops"][rng.randint(i + 1, j)]["id"]
+    return "jump into loop body"
 
 
-def sibling(doc: dict, rng: random.Random, tries: int = 12) -> dict | None:
+SAME_SIZE_MUTATORS = [m_jump_into_loop, m_jump_into_loop, m_retarget, m_retarget, m_backward_branch, m_shared_case_body, m_cross_routine_jump]
+
+
+def sibling(doc: dict, rng: random.Random, tries: int = 12, mutators=None) -> dict | None:
     """A routine set with the same ops, offsets and sizes as `doc` but other jump targets: graphs of equal
     vertex / edge counts and different shape (what a memo keyed too weakly would confuse)."""
     base = lift(doc)
     for _ in range(tries):
         rs = copy.deepcopy(base)
-        log = [rng.choice(SAME_SIZE_MUTATORS)(rs, rng) for _ in range(rng.choice([1, 1, 2]))]
+        log = [rng.choice(mutators or SAME_SIZE_MUTATORS)(rs, rng) for _ in range(rng.choice([1, 1, 2]) if mutators is None else 1)]
         if all(x == "noop" for x in log):
             continue
         out = layout(rs, None, gaps=False, start=min((o["off"] for r in doc["routines"] for o in r["ops"]), default=0))
@@ -292,6 +312,22 @@ def mutate(doc: dict, rng: random.Random, n_mut: int | None = None, tries: int =
         n_mut = max(0, n_mut - 1)
     out = layout(base, rng, gaps=gaps, start=start)
     return out, (["gapped offsets"] if gaps else []) + ([f"start={start}"] if start else [])
+
+
+def second_entry_family() -> list[dict]:
+    """Routine sets of identical size in the layout a binary reader produces (explicit Jump ops, nothing optimised
+    away): a conditional jump placed before a loop goes past the loop, or enters its body at different places
+    ("jumps into blocks", "irreducible loops" of C06's quantifier). Same ops, same vertex and edge counts."""
+
+    def R(t):
+        C = {"t": "const", "v": "$C"}
+        Z = {"t": "const", "v": "$Z"}
+        ops = [("Start", [0]), ("Branch", [C, 1, 3]), ("Jump", [4]), ("Jump", [t]), ("Mid", [1]), ("D", [1]), ("Branch", [Z, 2, 10]),
+               ("Jump", [8]), ("E", [2]), ("Jump", [5]), ("Nop", [0]), ("Fin", [9]), ("End", [])]
+        return {"routines": [{"type": "GENERIC", "linked_to": -1, "linked_to_name": None, "coro": None,
+                              "ops": [{"off": i, "op": n, "params": list(p)} for i, (n, p) in enumerate(ops)]}]}
+
+    return [R(11), R(6), R(8), R(5), R(10)]
 
 
 def handbuilt() -> list[tuple[str, dict]]:
